@@ -476,7 +476,8 @@ Proof.
         -- apply K2.
   - (* SourceComplete *)
     apply (Inv_handle_gen c x s IDone true [] _ (ckpt x) I Hmode); auto.
-    + change (@nil bitem) with (@nil bitem ++ []). eapply dext_trans; [apply flush_dext|]. apply dext_same; reflexivity.
+    + destruct (errored _ _); [apply flush_dext|].
+      change (@nil bitem) with (@nil bitem ++ []). eapply dext_trans; [apply flush_dext|]. apply dext_same; reflexivity.
     + intros b [].
     + intros o i k t [].
     + intros o k ts [].
@@ -484,18 +485,46 @@ Proof.
     + apply Kno.
 Qed.
 
+Lemma items_repeat s k ms ck dn y : items_of (mkSt ms (repeat [] k) ck dn y) s = [].
+Proof. unfold items_of; cbn. destruct (nth_repeat (@nil item) [] k s); auto. Qed.
+
+(* HandleDeploy while no call is outstanding and nothing is pending: a fresh deployment *)
+Lemma Inv_deploy c x x' : Inv c x -> step c x Deploy = Some x' -> Inv c x'.
+Proof.
+  intros I H. cbn in H. destruct (forallb _ (modes x)) eqn:Hidle; [|discriminate].
+  destruct (batch (dt x)); [|discriminate]. cbn in H. injection H as <-.
+  constructor; cbn [modes sent ckpt done dt batch log applied].
+  - apply (i_len_m _ _ I).
+  - apply repeat_length.
+  - intros s it _ (? & ? & ? & _). discriminate.
+  - intros s g it _ (? & ? & ? & _). discriminate.
+  - discriminate.
+  - intros e s j [].
+  - intros b s j [].
+  - intros s j id key tm H. rewrite items_repeat in H. destruct j; discriminate.
+  - intros s j t H. rewrite items_repeat in H. destruct j; discriminate.
+  - intros s j id key tm [[]|[]].
+  - intros s j k ts [[]|[]].
+  - cbn. tauto.
+  - intros [|? post] cid snap pre H; discriminate.
+Qed.
+
 Lemma Inv_step c x a x' : Inv c x -> step c x a = Some x' -> Inv c x'.
 Proof.
-  intros I H. destruct a as [s it|s|s| | |s].
-  6:{ cbn in H. destruct (nth_error (modes x) s) as [[| |]|]; try discriminate. injection H as <-. exact I. }
+  intros I H. destruct a as [s it|s|s| | |s| |].
   - eapply Inv_gate; eauto.
   - eapply Inv_wake; eauto.
   - eapply Inv_handle; eauto.
   - cbn in H. destruct (armed (dt x)); [|discriminate]. injection H as <-.
     apply Inv_dext; auto. apply dext_same; reflexivity.
-  - cbn in H. destruct (inflight (dt x)) as [|t r]; [discriminate|]. injection H as <-.
+  - cbn in H. destruct (sinkfault (dt x)); [discriminate|].
+    destruct (inflight (dt x)) as [|t r]; [discriminate|]. injection H as <-.
     apply Inv_dext; auto.
     change (@nil bitem) with (@nil bitem ++ []). eapply dext_trans; [|apply flush_dext]. apply dext_same; reflexivity.
+  - cbn in H. destruct (nth_error (modes x) s) as [[| |]|]; try discriminate. injection H as <-. exact I.
+  - cbn in H. destruct (sinkfault (dt x)); [discriminate|]. injection H as <-.
+    apply Inv_dext; auto. apply dext_same; reflexivity.
+  - eapply Inv_deploy; eauto.
 Qed.
 
 (* ---------- schedules ---------- *)
@@ -508,20 +537,28 @@ Lemma handle_item_frame c x s it :
   modes (handle_item c x s it) = set_nth s Idle (modes x) /\
   sent (handle_item c x s it) = set_nth s (items_of x s ++ [it]) (sent x).
 Proof.
-  unfold handle_item. destruct it as [id key tm|t|cid|]; cbn; auto.
-  destruct (ckpt x) as [[cur m]|].
-  - destruct (cid =? cur); cbn; auto. destruct (remove_nat s m); cbn; auto.
-  - rewrite N.eqb_refl. cbn. destruct (remove_nat s _); cbn; auto.
+  unfold handle_item. destruct it as [id key tm|t|cid|].
+  - cbn; auto.
+  - cbn; auto.
+  - destruct (ckpt x) as [[cur m]|].
+    + destruct (cid =? cur); cbn; auto. destruct (remove_nat s m); cbn; auto.
+    + rewrite N.eqb_refl. cbn. destruct (remove_nat s _); cbn; auto.
+  - cbn. auto.
 Qed.
 
 Lemma nth_of_nth_error {A} (l : list A) i v d : nth_error l i = Some v -> nth i l d = v.
 Proof. revert i; induction l as [|a l IH]; intros [|i] H; cbn in *; try discriminate; [congruence|auto]. Qed.
 
-Lemma step_full c x a x' s : Inv c x -> step c x a = Some x' -> full x' s = full x s ++ gate_item a s.
+Lemma forallb_idle_nth ms s : forallb (fun m => match m with Idle => true | _ => false end) ms = true -> nth s ms Idle = Idle.
 Proof.
-  intros I H. destruct a as [s' it|s'|s'| | |s']; cbn [gate_item].
-  6:{ cbn in H. destruct (nth_error (modes x) s') as [[| |]|]; try discriminate. injection H as <-.
-      rewrite app_nil_r. reflexivity. }
+  revert s; induction ms as [|m ms IH]; intros [|s] H; cbn in *; auto.
+  - destruct m; try discriminate. reflexivity.
+  - apply IH. destruct m; try discriminate. exact H.
+Qed.
+
+Lemma step_full c x a x' s : Inv c x -> step c x a = Some x' -> a <> Deploy -> full x' s = full x s ++ gate_item a s.
+Proof.
+  intros I H Hnd. destruct a as [s' it|s'|s'| | |s'| |]; cbn [gate_item]; try congruence.
   - cbn in H. destruct (nth_error (modes x) s') as [[| |]|] eqn:E; try discriminate. injection H as <-.
     pose proof (nth_error_lt _ _ _ E) as Hlt. unfold full, with_mode, items_of; cbn [modes sent].
     destruct (Nat.eqb s' s) eqn:Es.
@@ -543,20 +580,60 @@ Proof.
     + rewrite !nth_set_nth_eq by auto. rewrite (nth_of_nth_error _ _ _ Idle E). cbn. rewrite app_nil_r. reflexivity.
     + rewrite !nth_set_nth_neq by exact Hne. reflexivity.
   - cbn in H. destruct (armed (dt x)); [|discriminate]. injection H as <-. unfold full. rewrite app_nil_r. reflexivity.
-  - cbn in H. destruct (inflight (dt x)); [discriminate|]. injection H as <-. unfold full. rewrite app_nil_r. reflexivity.
+  - cbn in H. destruct (sinkfault (dt x)); [discriminate|].
+    destruct (inflight (dt x)); [discriminate|]. injection H as <-. unfold full. rewrite app_nil_r. reflexivity.
+  - cbn in H. destruct (nth_error (modes x) s') as [[| |]|]; try discriminate. injection H as <-.
+    rewrite app_nil_r. reflexivity.
+  - cbn in H. destruct (sinkfault (dt x)); [discriminate|]. injection H as <-. unfold full. rewrite app_nil_r. reflexivity.
 Qed.
 
-Lemma script_cons a acts s : script (a :: acts) s = gate_item a s ++ script acts s.
+Lemma step_deploy_full c x x' s : step c x Deploy = Some x' -> full x' s = [].
+Proof.
+  intros H. cbn in H. destruct (forallb _ (modes x)) eqn:Hidle; [|discriminate].
+  destruct (batch (dt x)); [|discriminate]. cbn in H. injection H as <-.
+  unfold full. rewrite items_repeat. cbn [modes]. rewrite (forallb_idle_nth _ _ Hidle). reflexivity.
+Qed.
+
+Lemma script0_cons a acts s : script0 (a :: acts) s = gate_item a s ++ script0 acts s.
 Proof. destruct a; cbn; auto. destruct (Nat.eqb s0 s); reflexivity. Qed.
 
-Lemma exec_inv c acts : forall x x', Inv c x -> exec c x acts = Some x' ->
-  Inv c x' /\ forall s, full x' s = full x s ++ script acts s.
+Lemma after_deploy_none acts : has_deploy acts = false -> after_deploy acts = acts.
 Proof.
-  induction acts as [|a acts IH]; intros x x' I H; cbn in H.
+  induction acts as [|a acts IH]; cbn; auto. intros H.
+  destruct a; try (rewrite H; reflexivity). discriminate.
+Qed.
+
+Lemma script_cons_nd a acts s : a <> Deploy ->
+  has_deploy (a :: acts) = has_deploy acts /\
+  script (a :: acts) s = if has_deploy acts then script acts s else gate_item a s ++ script acts s.
+Proof.
+  intros Hnd. unfold script. split; [destruct a; cbn; congruence|].
+  destruct (has_deploy acts) eqn:Hd.
+  - destruct a; cbn; rewrite Hd; congruence.
+  - rewrite (after_deploy_none _ Hd).
+    replace (after_deploy (a :: acts)) with (a :: acts) by (destruct a; cbn; rewrite Hd; congruence).
+    apply script0_cons.
+Qed.
+
+Lemma script_cons_deploy acts s : script (Deploy :: acts) s = script acts s.
+Proof.
+  unfold script. cbn. destruct (has_deploy acts) eqn:Hd; auto. rewrite (after_deploy_none _ Hd). reflexivity.
+Qed.
+
+Lemma exec_inv c acts : forall x x', Inv c x -> exec c x acts = Some x' ->
+  Inv c x' /\ forall s, full x' s = (if has_deploy acts then [] else full x s) ++ script acts s.
+Proof.
+  induction acts as [|a acts IH]; intros x x' I H; cbn [exec] in H.
   - injection H as <-. split; auto. intros s. cbn. rewrite app_nil_r. reflexivity.
   - destruct (step c x a) as [x1|] eqn:E; [|discriminate].
     pose proof (Inv_step _ _ _ _ I E) as I1. destruct (IH _ _ I1 H) as (I' & Hf). split; auto.
-    intros s. rewrite Hf, (step_full _ _ _ _ s I E), script_cons, app_assoc. reflexivity.
+    intros s. rewrite Hf.
+    assert (Hdec : a = Deploy \/ a <> Deploy) by (destruct a; auto; right; discriminate).
+    destruct Hdec as [->|Hnd].
+    + rewrite (step_deploy_full _ _ _ s E), script_cons_deploy. cbn [has_deploy]. destruct (has_deploy acts); reflexivity.
+    + destruct (script_cons_nd a acts s Hnd) as (-> & ->).
+      destruct (has_deploy acts); [reflexivity|].
+      rewrite (step_full _ _ _ _ s I E Hnd), app_assoc. reflexivity.
 Qed.
 
 Lemma full_init c s : full (init c) s = [].
@@ -569,7 +646,9 @@ Lemma exec_init c acts x : exec c (init c) acts = Some x ->
   Inv c x /\ forall s, exists l, script acts s = items_of x s ++ l.
 Proof.
   intros H. destruct (exec_inv c acts _ _ (Inv_init c) H) as (I & Hf). split; auto.
-  intros s. specialize (Hf s). rewrite full_init in Hf. cbn in Hf. rewrite <- Hf. unfold full. eauto.
+  intros s. specialize (Hf s). rewrite full_init in Hf.
+  assert (Hs : full x s = script acts s) by (rewrite Hf; destruct (has_deploy acts); reflexivity).
+  rewrite <- Hs. unfold full. eauto.
 Qed.
 
 (* ---------- the theorems (stated again, with their reading, in Props/C02.v) ---------- *)
